@@ -40,6 +40,64 @@ class Rig:
                 buf[i] = junk[i]
 
 
+def two_masters(k=2):
+    """two networks (two buses) in one process, each with its LSS master and one slave in configuration state: both
+    masters inquire the node id at the same time (two threads), the answers come back through a dispatcher thread in
+    either order - each master returns the answer of the slave on *its* bus.  Default schedule plus up to k deviations at
+    synchronisation points (delay-bounded scheduler)."""
+    from symx.sched import SCondition
+    LssError = sx.mod("canopen.lss").LssError
+    ida, idb = sx.fresh_int("node_a", 1, 127), sx.fresh_int("node_b", 1, 127)
+    sx.assume(ida != idb)
+    nets = [sx.mod("canopen.network").Network() for _ in range(2)]
+    sched = sx.scheduler(preempt=k, delay=True, lines=False)
+    cond = SCondition(sched)
+    parked = []
+    state = dict(stop=False)
+
+    def sender(k, nid):
+        def send(can_id, data, remote=False):
+            if bool(sx.items(data)[0] == 0x5E):                 # inquire node id -> the slave on this bus answers
+                with cond:
+                    parked.append((k, sx.mkbytes([0x5E, nid, 0, 0, 0, 0, 0, 0])))
+                    cond.notify_all()
+        return send
+    nets[0].send_message = sender(0, ida)
+    nets[1].send_message = sender(1, idb)
+
+    def dispatcher():
+        while True:
+            with cond:
+                while not parked and not state["stop"]:
+                    cond.wait()
+                if not parked:
+                    return
+                # the two buses are independent: either pending answer may arrive first
+                k, frame = parked.pop(sx.choice(len(parked), "which_bus") if len(parked) > 1 else 0)
+            nets[k].notify(RX, sx.new_bytearray(sx.items(frame)), 0.0)
+    got = [None, None]
+
+    def ask(k):
+        try:
+            got[k] = nets[k].lss.inquire_node_id()
+        except LssError:
+            got[k] = "error"
+    sched.spawn(dispatcher, "dispatcher")
+    sched.spawn(lambda: ask(1), "client1")
+    ask(0)
+    sched.wait_until(lambda: sched.done("client"))
+    with cond:
+        state["stop"] = True
+        cond.notify_all()
+    sched.join()
+    sx.observe("got", got)
+    sx.prove(got[0] != "error" and got[1] != "error", "an inquiry failed although both slaves answered", "C18/two-masters/failed")
+    if got[0] != "error" and got[1] != "error":
+        sx.prove((got[0] == ida) & (got[1] == idb), "a master returned the answer of the slave on the other bus",
+                 "C18/two-masters/crossed")
+    sx.reach("two-masters")
+
+
 def _frame_ok(rig, expect, tag):
     """the last request is one 8-byte frame on 0x7E5 with exactly the expected bytes"""
     if not rig.sent:
@@ -374,7 +432,7 @@ def _backgrounds(seed):
 def jobs(tier):
     import os
     seed = int(os.environ.get("VERIF_SEED", "0") or 0)
-    out = []
+    out = [dict(func="two_masters", params=dict(k=2 if tier == "quick" else 3), weight=500)]
     for w in ("inquire_node_id", "inquire_lss_address", "configure_node_id", "store_configuration", "silence"):
         out.append(dict(func="slow_slave", params=dict(which=w)))
     for w in ("switch_global", "configure_node_id", "configure_bit_timing", "activate_bit_timing",
@@ -425,7 +483,7 @@ META = dict(
                     "the obsolete identify-remote-slave services"],
     assumptions=["reference slave written from CiA 305 (fast-scan state machine with LSSPos/LSSSub/LSSNext)"],
     stubs=["struct", "queue", "time.sleep", "Network.send_message replaced", "logging"],
-    required_reach=["slow", "framing-history", "framing-switch_global", "framing-configure_node_id", "framing-configure_bit_timing",
+    required_reach=["two-masters", "slow", "framing-history", "framing-switch_global", "framing-configure_node_id", "framing-configure_bit_timing",
                     "framing-activate_bit_timing", "framing-store_configuration", "framing-inquire_node_id",
                     "framing-inquire_lss_address", "framing-selective", "reply-ok", "reply-error", "reply-silence",
                     "fastscan", "fastscan-none", "after-scan", "late-reply", "fastscan-twice"],
